@@ -64,6 +64,9 @@ enum Node {
     RawError { tag: u32, text: String },
     /// include of a mixin that is defined in an imported file (entry only, after the import)
     IncludeForeign { file: usize, mixin: usize, arg: i64, content: Option<Vec<Node>> },
+    /// call of a function that a `@use`d file defines (entry only): through its namespace
+    /// (form 0) or as a first-class function, `meta.call(meta.get-function(..., $module: ...), ...)`
+    CallForeign { file: usize, func: usize, arg: i64, form: u8 },
 }
 
 #[derive(Clone, Debug)]
@@ -507,19 +510,34 @@ impl Printer {
                         self.ln(indent, ".bad-#{\"[[\"} { x: y; }");
                     }
                 }
-                Node::IncludeForeign { file, mixin, arg, content } => match content {
-                    None => self.stmt(indent, &format!("@include {}({})", all[*file].mixins[*mixin].name, call_args(&all[*file].mixins[*mixin], *arg))),
-                    Some(c) => {
-                        // the block is written (and located) in this file, the mixin lives in another
-                        self.open(indent, &format!("@include {}({})", all[*file].mixins[*mixin].name, call_args(&all[*file].mixins[*mixin], *arg)));
-                        self.block(indent + 1, c, f, all);
-                        self.close(indent);
+                Node::IncludeForeign { file, mixin, arg, content } => {
+                    // a member of a `@use`d file is reached through its namespace, one of an imported file is global
+                    let ns = if f.uses.contains(file) { format!("u{}.", file) } else { String::new() };
+                    match content {
+                        None => self.stmt(indent, &format!("@include {}{}({})", ns, all[*file].mixins[*mixin].name, call_args(&all[*file].mixins[*mixin], *arg))),
+                        Some(c) => {
+                            // the block is written (and located) in this file, the mixin lives in another
+                            self.open(indent, &format!("@include {}{}({})", ns, all[*file].mixins[*mixin].name, call_args(&all[*file].mixins[*mixin], *arg)));
+                            self.block(indent + 1, c, f, all);
+                            self.close(indent);
+                        }
                     }
-                },
+                }
+                Node::CallForeign { file, func, arg, form } => {
+                    let c = &all[*file].funcs[*func];
+                    if *form == 0 {
+                        self.stmt(indent, &format!("$_r: u{}.{}({})", file, c.name, call_args(c, *arg)));
+                    } else {
+                        self.stmt(indent, &format!("$_r: meta.call(meta.get-function(\"{}\", $module: \"u{}\"), {})", c.name, file, call_args(c, *arg)));
+                    }
+                }
             }
         }
     }
     fn file(&mut self, f: &FileAst, all: &[FileAst]) {
+        if f.body.iter().any(|n| matches!(n, Node::CallForeign { form, .. } if *form != 0)) {
+            self.stmt(0, "@use \"sass:meta\"");
+        }
         for u in &f.uses {
             let url = all[*u].path.rsplit('/').next().unwrap().trim_start_matches('_').rsplit_once('.').unwrap().0.to_string();
             self.stmt(0, &format!("@use \"{}\" as u{}", url, u));
@@ -769,6 +787,11 @@ impl<'a> Exec<'a> {
                     self.error = Some(Expected { kind: "error".into(), file: "*".into(), line: self.lines[fi][tag], msg: "*".into() });
                     return false;
                 }
+                Node::CallForeign { file, func, arg, .. } => {
+                    if !self.call_fn_opt(*file, *func, *arg, opt_form(*arg) == 0) {
+                        return false;
+                    }
+                }
                 Node::IncludeForeign { file, mixin, arg, content: c } => {
                     // the mixin's directives live in the file that defines it, the content block's in this one
                     if let Some(d) = self.files[*file].mixins[*mixin].default_func {
@@ -922,6 +945,30 @@ pub fn gen_script(rng: &mut Rng, root: &str) -> Script {
         }
         for (k, (pos, node)) in extra.into_iter().enumerate() {
             body.insert(pos + k, node);
+        }
+        // members of `@use`d files, reached through the namespace or as first-class functions:
+        // their directives are located in the file that defines them
+        for u in files[0].uses.clone() {
+            let nm = files[u].mixins.len();
+            if nm > 0 && g.rng.chance(0.6) {
+                let mi = g.rng.usize_below(nm);
+                let content = if files[u].mixins[mi].content_at.is_some() && g.rng.chance(0.7) {
+                    g.budget = 3;
+                    g.salt = "c";
+                    let c = g.block(Where::Content, 2, &[], 0, 0, &[], false);
+                    g.salt = "";
+                    Some(c)
+                } else {
+                    None
+                };
+                let pos = g.rng.usize_below(body.len() + 1);
+                body.insert(pos, Node::IncludeForeign { file: u, mixin: mi, arg: g.rng.range(1, 9) as i64, content });
+            }
+            let nf = files[u].funcs.len();
+            if nf > 0 && g.rng.chance(0.6) {
+                let pos = g.rng.usize_below(body.len() + 1);
+                body.insert(pos, Node::CallForeign { file: u, func: g.rng.usize_below(nf), arg: g.rng.range(1, 9) as i64, form: g.rng.chance(0.4) as u8 });
+            }
         }
         files[0].body = body;
     }
@@ -1358,6 +1405,21 @@ impl Engine for LoggerEngine {
             }
             if sc.expected.iter().any(|e| normalize("/w", &e.file) != normalize("/w", &sc.job.files[0].0)) {
                 res.bump("probe.delivery_from_imported_file", 1);
+            }
+            {
+                let entry_text = String::from_utf8_lossy(&sc.job.files[0].1).into_owned();
+                if entry_text.contains("meta.get-function(") {
+                    res.bump("probe.first_class_function_of_used_module_called", 1);
+                }
+                if entry_text.contains("@include u") || entry_text.contains("$_r: u") {
+                    res.bump("probe.member_of_used_module_called_through_namespace", 1);
+                }
+                if sc.job.files.iter().any(|(_, t)| String::from_utf8_lossy(t).contains(", $o: ")) {
+                    res.bump("probe.callable_with_default_expression", 1);
+                }
+                if sc.job.files.iter().any(|(_, t)| t.windows(3).any(|w| w == b"\n \n" || w == b"\n\t\n") || t.windows(4).any(|w| w == b"\n  \n")) {
+                    res.bump("probe.whitespace_only_line", 1);
+                }
             }
             {
                 let mut counts: BTreeMap<(String, usize), usize> = BTreeMap::new();
